@@ -344,6 +344,13 @@ def behavioural_handler_facts(M, notes):
         ok = True
         excs = [c() if c is not UnicodeError else UnicodeEncodeError("utf-8", "x", 0, 1, "refused") for c in EXC_CLASSES]
         excs += [Custom(), Custom("m"), Unprintable()]
+        # every kind of exception object of the harness' fault axis (chained to an unprintable cause / context, hostile
+        # arguments, notes, class name, attribute access ...): whatever the handler touches of it, a result comes back
+        try:
+            from .. import mito as _mito
+            excs += [_mito.make_exception(k) for k in _mito.EXC_KINDS]
+        except Exception as e:  # noqa
+            notes.append(f"fault kinds of the harness unavailable: {e!r}")
         for silent in (True, False):
             with contextlib.redirect_stdout(io.StringIO()):
                 for exc in excs:
